@@ -98,10 +98,27 @@ def run(chk, repo):
     store_nodes = nodes_calling(lambda c: _stores_map(c, dl) or dotted(c.func) in storers)
     renum_nodes = nodes_calling(lambda c: dotted(c.func) == 'pk_param_conversion')
     rets = [n for n in cfg.nodes.values() if n.kind == 'return']
-    if not rets or not store_nodes or not renum_nodes:
+    # the decision "the dose is a bolus and the data has RATE -> drop the column": a test mentioning Bolus and 'RATE'
+    rate_tests = {n.id for n in cfg.nodes.values() if n.kind == 'test' and n.ast is not None
+                  and any(isinstance(x, ast.Name) and x.id == 'Bolus' for x in ast.walk(n.ast))
+                  and any(isinstance(x, ast.Constant) and x.value == 'RATE' for x in ast.walk(n.ast))}
+    # a bolus/RATE decision that also reads the variables of the ADVAN/$DES dispatch is taken in one form only
+    des_nodes = nodes_calling(lambda c: dotted(c.func) == 'to_des')
+    dispatch_names = set()
+    for n in cfg.nodes.values():
+        if n.kind == 'test' and n.ast is not None and any(cfg.edge_dominates(n.id, lab, d) for d in des_nodes
+                                                             for lab in ('true', 'false')):
+            dispatch_names |= {x.id for x in ast.walk(n.ast) if isinstance(x, ast.Name)}
+    rate_tests_all = set(rate_tests)
+    rate_tests = {i for i in rate_tests
+                  if not ({x.id for x in ast.walk(cfg.nodes[i].ast) if isinstance(x, ast.Name)} & dispatch_names)}
+    if not rets or not store_nodes or not renum_nodes or not rate_tests_all or not dispatch_names:
         raise AnalysisError(f'B5: update_ode_system anchors not found (returns {len(rets)}, stores {len(store_nodes)}, '
-                            f'renumberings {len(renum_nodes)})')
+                            f'renumberings {len(renum_nodes)}, bolus/RATE tests {len(rate_tests_all)}, dispatch names {len(dispatch_names)})')
     for what, via, wit in (
+            ('decides whether the RATE column goes (bolus dose)', rate_tests,
+             'a $DES model (Michaelis-Menten elimination) with zero order absorption set back to instantaneous absorption: '
+             'the data keeps RATE=-2 while no D1 is defined any more (findings/C02_des_bolus_rate_demo.py)'),
             ('stores the compartment map', store_nodes,
              'two structural changes in a row on a model that needs $DES (e.g. Michaelis-Menten elimination, then first order '
              'absorption): the second change renumbers from a stale map'),
